@@ -99,9 +99,10 @@ def factory_catalogue():
                 jac = d.linearize(compute_all_jacobians=True)
                 # (a 10^4 x 10^4 sparse Jacobian cannot be compared densely: such a class is run execute-only)
                 lin = all(int(np.prod(v.shape)) <= 10**6 for jo in jac.values() for v in jo.values())
+                huge = not lin
             except Exception:  # noqa: BLE001
-                lin = False
-            found.append((name, lin))
+                lin = huge = False
+            found.append((name, lin, huge))
         _FACTORY = found
     return _FACTORY
 
@@ -119,8 +120,10 @@ def build_discipline(t, ctx):
         from gemseo.disciplines.factory import DisciplineFactory
 
         cat = factory_catalogue()
-        name, lin = cat[t.choice(len(cat), "factory_index")]
+        name, lin, huge = cat[t.choice(len(cat), "factory_index")]
         cache = CACHES[t.weighted([3, 3, 0, 0, 2], "cache")]
+        if huge and cache == "HDF5Cache":
+            cache = "SimpleCache"  # (known finding F-C05-hdf5-large-sparse-jacobian: the original cannot even be executed)
         d = DisciplineFactory().create(name)
         base = {k: np.array(v, dtype=float, copy=True) for k, v in d.io.input_grammar.defaults.items() if isinstance(v, np.ndarray) and v.dtype.kind in "fi"}
         first = sorted(base)[0] if base else None
